@@ -35,6 +35,7 @@ func checkC08(c *Ctx, r *Report) {
 	r.Explanation = "R10: for each packing mode, every function that exists in both the global and the object skeleton (Action, TraceShift, ReduceFunc, PushStateSym, PopStateSym, Parser, fetchLookAhead, translate, TraceTranslate, TraceReduce) is printed from its parsed AST and must be identical after the declared receiver mapping (c.StackSym↔StateSymStack, c.Stackpos↔StackPointer, c.F(↔F(); the one-sided declarations are listed. The TypeScript driver (token tree) and the Go driver (typed AST) are reduced to the same abstract IR — loop guards, lookup, classification order, per class the ordered core calls and their key arguments — and compared. Sibling builders (ReduceFunc, Translate, table, const part) must fill the same roles from the same access paths in Go and TypeScript. Mode flags: who writes utils.ObjectMode / PackFlags. Not decided: equality of outputs on inputs; TypeScript typing."
 	r.Assumptions = append(r.Assumptions, "TypeScript rules are token-level (no TS front end is installed)")
 	st := c.GetStaged()
+	stagedErrors(r, "C08", st)
 	c08a(c, r, st)
 	c08b(c, r, st)
 	c08c(c, r, st)
@@ -75,12 +76,12 @@ func c08a(c *Ctx, r *Report, st *Staged) {
 			}
 			gt := printNode(g.Fset, gf.Body)
 			ot := normaliseObjectText(printNode(o.Fset, of.Body))
-			if gt == ot {
+			if strings.Join(strings.Fields(gt), " ") == strings.Join(strings.Fields(ot), " ") {
 				r.OK(clause, "R10 SIBLING-DIFF", construct, "Builder/GoCodeTemplate.go ↔ Builder/GoObjectTemplate.go", fmt.Sprintf("bodies identical modulo the receiver mapping (%d bytes)", len(gt)))
 				continue
 			}
 			// first differing line
-			gl, ol := strings.Split(gt, "\n"), strings.Split(ot, "\n")
+			gl, ol := nonBlankLines(gt), nonBlankLines(ot)
 			diff := ""
 			for i := 0; i < len(gl) || i < len(ol); i++ {
 				a, b := "", ""
@@ -546,4 +547,14 @@ func c08d(c *Ctx, r *Report) {
 				fmt.Sprintf("the reduce fragments are switched by %q but the template by %q", a, b))
 		}
 	}
+}
+
+func nonBlankLines(s string) []string {
+	var out []string
+	for _, l := range strings.Split(s, "\n") {
+		if strings.TrimSpace(l) != "" {
+			out = append(out, l)
+		}
+	}
+	return out
 }
